@@ -5,7 +5,8 @@ import json, os, sys
 ROOT = os.path.dirname(os.path.dirname(os.path.abspath(__file__)))
 sys.path.insert(0, os.path.join(ROOT, "checklib"))
 from props import PROPS, LEVELS as LEVEL_TEXT
-from manifest_extra import NOT_YET, HOOK_COMMITS, NOTES
+from manifest_extra import NOT_YET, HOOK_COMMITS, NOTES, READY
+PROPS = {k: v for k, v in PROPS.items() if k in READY}
 
 ids = [json.loads(l)["id"] for l in open(os.path.join(ROOT, "properties.jsonl"))]
 checks = []
